@@ -23,7 +23,15 @@ int main(int argc, char **argv)
       o.cross_section = true;
       // every second pair of rounds: slabs with the mass conserving model (its helper functions and workspaces), one with a spline
       if ((round / 2) % 2 == 1) { o.slab_model = 1 + (round / 4) % 2; o.second_slab = true; o.variant = 0; o.water = true; }
-      const std::string text = worlds::rich(o);
+      std::string text = worlds::rich(o);
+      // odd pairs of rounds: the mantle layer's temperature is the 'adiabatic' model (it reads the world-level constants) with the linear model added on top
+      if ((round / 2) % 2 == 0 && round >= 2)
+        {
+          const std::string lin = "{\"model\":\"linear\",\"min depth\":1e5,\"max depth\":4e5,\"top temperature\":1500,\"bottom temperature\":1700}";
+          const size_t at = text.find(lin);
+          if (at == std::string::npos) { printf("HARNESS-ERROR mantle layer model not found in the world text\n"); return 3; }
+          text.replace(at, lin.size(), "{\"model\":\"adiabatic\",\"min depth\":1e5,\"max depth\":4e5},{\"model\":\"linear\",\"min depth\":1e5,\"max depth\":4e5,\"top temperature\":150,\"bottom temperature\":170,\"operation\":\"add\"}");
+        }
       // a brand-new world per round: the very first queries of all threads overlap (lazy initialisation races)
       auto w = kit::make_world(text, 1, "tsan");
       const auto probes = worlds::lattice(o.spherical);
